@@ -414,13 +414,17 @@ class _Emitter(object):
             self.w("}")
         elif k == "decl":
             self.features.add("declaration")
-            self.w("{\\%s " % n["n"])
+            bare = bool(n.get("bare"))       # unbraced: lasts to the end of the enclosing argument
+            if bare:
+                self.features.add("bare-declaration-as-whole-argument")
+            self.w(("\\%s " if bare else "{\\%s ") % n["n"])
             self.push()
             self.owner.append("declaration")
             self.inlines(n["c"])
             self.owner.pop()
             self.pop()
-            self.w("}")
+            if not bare:
+                self.w("}")
         elif k == "mbox":
             self.features.add("mbox")
             self.w("\\mbox{")
@@ -1050,6 +1054,16 @@ def documents(features=ALL_FEATURES, exclude=(), max_items=14, classes=("article
         return out
 
     @st.composite
+    def title_inlines(draw):
+        """A sectioning title; one in five is a single node: an unbraced declaration that absorbs
+        the whole title (\\section{\\itshape a ``b'' -- c})."""
+        t = draw(inlines(1, True, True, 2))
+        if "decl" in F and draw(st.integers(0, 4)) == 0:
+            t = [{"k": "decl", "n": draw(st.sampled_from(["itshape", "bfseries", "sffamily"])), "c": t,
+                  "bare": True}]
+        return t
+
+    @st.composite
     def inlines(draw, depth=0, inarg=False, labels=True, maxn=4):
         """Always starts with a word (so that every object has its own first marker)."""
         out = [draw(word())]
@@ -1186,7 +1200,8 @@ def documents(features=ALL_FEATURES, exclude=(), max_items=14, classes=("article
             if len(body) > 1 and "labels" in F and draw(st.booleans()):
                 body.append({"k": "par", "c": [{"k": "w", "q": None}, {"k": "label", "n": "?"}], "sep": 1})
             b = {"k": "thm", "name": draw(st.sampled_from(thmnames)),
-                 "title": draw(inlines(1, True, False, 1)) if draw(st.integers(0, 3)) == 0 else None,
+                 # the optional note may carry the theorem's label (LaTeX steps the counter before it)
+                 "title": draw(inlines(1, True, True, 1)) if draw(st.integers(0, 3)) == 0 else None,
                  "c": body}
         elif k == "float":
             name = draw(st.sampled_from(["figure", "table"]))
@@ -1266,7 +1281,7 @@ def documents(features=ALL_FEATURES, exclude=(), max_items=14, classes=("article
                     have_chapter = True
                 body.append({"k": "sec", "lv": lv, "star": star,
                              "toc": draw(inlines(1, True, False, 1)) if draw(st.integers(0, 4)) == 0 else None,
-                             "title": draw(inlines(1, True, True, 2)), "sep": draw(st.integers(0, 1))})
+                             "title": draw(title_inlines()), "sep": draw(st.integers(0, 1))})
             elif "counters" in F and r == 4 and ctrnames:
                 c = draw(st.sampled_from(ctrnames))
                 op = draw(st.sampled_from(["set", "add", "step", "set"]))
